@@ -253,6 +253,19 @@ def _observe(prob, refm, V, step):
                 V('get_shape', name, units, idx, step, 'shape %s expected %s' % (got.shape,
                                                                                  want.shape))
                 ok = False
+            if units is None and idx is None:
+                # the item-access spelling prob[name] is documented as get_val(name)
+                try:
+                    got2 = np.asarray(prob[name])
+                    if got2.size != want.size or not np.allclose(np.ravel(got2), np.ravel(want),
+                                                                 rtol=0, atol=1e-10 * scale):
+                        V('getitem_value', name, units, idx, step, 'prob[name] = %s expected %s' % (
+                            np.ravel(got2).tolist(), np.ravel(want).tolist()))
+                        ok = False
+                except Exception as exc:
+                    V('getitem_raises', name, units, idx, step, '%s: %s' % (type(exc).__name__,
+                                                                           str(exc)[:200]))
+                    ok = False
             state.append(tuple(np.round(np.ravel(want), 9).tolist()))
     return tuple(state), ok
 
